@@ -105,7 +105,6 @@ func runGate(c *vp.Child) {
 					if s != 0 {
 						c.NonTrivial(vp.Hash("gate", name, setName(s), spelling, strings.Join(exprs, ",")))
 					}
-					_ = hostile
 					if res.refused {
 						st.refused[s]++
 						if st.refusedBy[s] == "" {
